@@ -7,6 +7,7 @@ import (
 	"go/types"
 	"regexp"
 	"sort"
+	"strconv"
 	"strings"
 
 	"golang.org/x/tools/go/ssa"
@@ -996,5 +997,283 @@ func ruleNarrowOverflow(c *Ctx) []Ob {
 		}
 	}
 	s.ok("scan", "-", fmt.Sprintf("sub-word arithmetic scanned in the codec packages; %d results feed a size, index or widening conversion", n))
+	return s.obs
+}
+
+func init() {
+	register(&Rule{ID: "F.map-decode", Min: 5,
+		Text: "map decoding keeps key and value apart: values described by t.K are decoded into the key slot (tmp.kp or the key batch allocated from t.K.V), values described by t.V into the value slot; the pooled slots are built from t.K.RT / t.V.RT with kp/vp pointing at k/v; SetMapIndex(k, v) runs once per entry after both decodes succeeded, on the map made with MakeMapWithSize(t.RT, l); the map is published into the destination only when no entry failed",
+		Run:  ruleMapDecode})
+	register(&Rule{ID: "X.exception-kinds", Min: 5,
+		Text: "the protocol exceptions carry the kinds the properties name: depth limit = DEPTH_LIMIT, negative length = NEGATIVE_SIZE, length/count exceeding the input = SIZE_LIMIT, missing required field and element type mismatch = INVALID_DATA",
+		Run:  ruleExceptionKinds})
+}
+
+func ruleMapDecode(c *Ctx) []Ob {
+	s := newSink(c, "F.map-decode")
+	dt := c.Func(pkgReflect, "(*tDecoder).decodeType")
+	if dt == nil {
+		s.bad("roles", "-", "decodeType not found")
+		return s.obs
+	}
+	t := dt.Params[1].Name()
+	var setIdx *ssa.Call
+	var decodes []*ssa.Call
+	for _, b := range dt.Blocks {
+		for _, ins := range b.Instrs {
+			call, ok := ins.(*ssa.Call)
+			if !ok || call.Call.StaticCallee() == nil {
+				continue
+			}
+			cf := call.Call.StaticCallee()
+			if cf.Name() == "SetMapIndex" && fnPkgPath(cf) == "reflect" {
+				setIdx = call
+			}
+		}
+	}
+	if setIdx == nil {
+		s.bad("SetMapIndex", c.Pos(dt.Pos()), "map entries are never inserted")
+		return s.obs
+	}
+	// decodes in the entry loop: those inside the loop containing SetMapIndex
+	hdr := loopHeaderOf(setIdx.Block())
+	for _, b := range dt.Blocks {
+		if hdr == nil || !(hdr.Dominates(b) && blockReaches(b, hdr)) {
+			continue
+		}
+		for _, ins := range b.Instrs {
+			call, ok := ins.(*ssa.Call)
+			if !ok || call.Call.StaticCallee() == nil {
+				continue
+			}
+			n := shortFn(call.Call.StaticCallee())
+			if n == "tDecoder.decodeType" || n == "decodeFixedSizeTypes" || isElemDecodeHelper(call.Call.StaticCallee()) {
+				decodes = append(decodes, call)
+			}
+		}
+	}
+	sides := map[string]bool{}
+	for _, call := range decodes {
+		// which descriptor
+		side := ""
+		for _, a := range call.Call.Args {
+			p := path(a)
+			switch {
+			case p == t+".K" || p == t+".K.T":
+				side = "K"
+			case p == t+".V" || p == t+".V.T":
+				side = "V"
+			}
+		}
+		var ptr ssa.Value
+		for _, a := range call.Call.Args {
+			if isUnsafePointer(a.Type()) {
+				ptr = a
+			}
+		}
+		if side == "" || ptr == nil {
+			s.undec("entry-decode", c.InstrPos(call), "decode call in the entry loop whose descriptor is neither t.K nor t.V")
+			continue
+		}
+		sides[side] = true
+		wantSlot := map[string]string{"K": "pool-slot:kp", "V": "pool-slot:vp"}[side]
+		good := true
+		var why []string
+		for _, cl := range destClasses(ptr) {
+			switch {
+			case cl == wantSlot:
+			case cl == "malloc":
+				// batch allocated from the same side's pointee descriptor
+				cls, desc := storeValueClass(ptr)
+				if cls == "batch" && desc != t+"."+side+".V" {
+					good = false
+					why = append(why, "batch allocated from "+desc)
+				}
+			case strings.HasPrefix(cl, "pool-slot:"):
+				good = false
+				why = append(why, "decoded into the other slot ("+cl+")")
+			default:
+				good = false
+				why = append(why, "destination "+cl)
+			}
+		}
+		s.check(good, "entry-decode:"+side, c.InstrPos(call), "t."+side+" decoded into its own slot", "a map "+map[string]string{"K": "key", "V": "value"}[side]+" is decoded into the wrong destination ("+strings.Join(why, ", ")+"): keys and values would be exchanged or overwrite each other")
+	}
+	s.check(sides["K"] && sides["V"], "entry-decode:both", c.InstrPos(setIdx), "both key and value are decoded per entry", "the entry loop does not decode both a key and a value")
+	// SetMapIndex(m, k, v)
+	args := setIdx.Call.Args
+	okArgs := len(args) == 3
+	if okArgs {
+		_, t1, f1, ok1 := fieldOf(args[1])
+		_, t2, f2, ok2 := fieldOf(args[2])
+		okArgs = ok1 && ok2 && t1 == "tmpMapVars" && t2 == "tmpMapVars" && f1 == "k" && f2 == "v"
+		if mk, ok := args[0].(*ssa.Call); !ok || mk.Call.StaticCallee() == nil || mk.Call.StaticCallee().Name() != "MakeMapWithSize" || path(mk.Call.Args[0]) != t+".RT" {
+			okArgs = false
+		}
+	}
+	s.check(okArgs, "SetMapIndex:args", c.InstrPos(setIdx), "m.SetMapIndex(tmp.k, tmp.v) on MakeMapWithSize(t.RT, l)", "SetMapIndex is not called as m.SetMapIndex(k, v) with the pooled key and value on the map made from t.RT")
+	// after both decodes succeeded: every decode call dominates it or is on an exclusive alternative, and error edges leave the loop
+	okAfter := true
+	for _, call := range decodes {
+		if !(call.Block().Dominates(setIdx.Block()) || reachesOnlyVia(call.Block(), setIdx.Block())) {
+			okAfter = false
+		}
+	}
+	s.check(okAfter, "SetMapIndex:after-decodes", c.InstrPos(setIdx), "entry inserted after key and value were decoded", "the entry is inserted before its key or value was decoded")
+	// publish only when err == nil
+	for _, b := range dt.Blocks {
+		for _, ins := range b.Instrs {
+			st, ok := ins.(*ssa.Store)
+			if !ok {
+				continue
+			}
+			if cls, _ := storeValueClass(st.Val); cls != "map" {
+				continue
+			}
+			good := false
+			for _, cd := range domConds(b) {
+				if bo, ok := cd.V.(*ssa.BinOp); ok && isErrorType(bo.X.Type()) && isNilConst(bo.Y) {
+					if bo.Op == token.EQL && cd.Truth || bo.Op == token.NEQ && !cd.Truth {
+						good = true
+					}
+				}
+			}
+			s.check(good, "publish-on-success", c.InstrPos(st), "the map is stored into the destination only when every entry decoded", "a partially decoded map is stored into the destination")
+		}
+	}
+	// pool constructor
+	if init := c.SSA[pkgReflect].Func("initOrGetMapTmpVarsPool"); init != nil {
+		okNew := false
+		for _, af := range init.AnonFuncs {
+			got := map[string]string{}
+			for _, b := range af.Blocks {
+				for _, ins := range b.Instrs {
+					st, ok := ins.(*ssa.Store)
+					if !ok {
+						continue
+					}
+					_, typ, f, ok := fieldOf(st.Addr)
+					if !ok || typ != "tmpMapVars" {
+						continue
+					}
+					// origin: reflect.New(<t>.K.RT / V.RT)
+					v := st.Val
+					for i := 0; i < 6; i++ {
+						call, ok := v.(*ssa.Call)
+						if !ok || call.Call.StaticCallee() == nil {
+							break
+						}
+						if call.Call.StaticCallee().Name() == "New" && fnPkgPath(call.Call.StaticCallee()) == "reflect" {
+							got[f] = path(call.Call.Args[0])
+							break
+						}
+						if len(call.Call.Args) == 0 {
+							break
+						}
+						v = call.Call.Args[0]
+						if u, ok := v.(*ssa.UnOp); ok {
+							// load of m.k
+							if _, _, f2, ok := fieldOf(u); ok {
+								if o, ok := got[f2]; ok {
+									got[f] = o
+								}
+							}
+							break
+						}
+					}
+				}
+			}
+			kOK := strings.HasSuffix(got["k"], ".K.RT") && strings.HasSuffix(got["kp"], ".K.RT")
+			vOK := strings.HasSuffix(got["v"], ".V.RT") && strings.HasSuffix(got["vp"], ".V.RT")
+			if kOK && vOK {
+				okNew = true
+			}
+		}
+		s.check(okNew, "tmp-slots", c.Pos(init.Pos()), "k/kp built from t.K.RT, v/vp from t.V.RT", "the pooled key/value slots are not built from the key type and the value type respectively")
+	}
+	return s.obs
+}
+
+// isElemDecodeHelper: a helper (t, b, p, depth) that forwards to decodeFixedSizeTypes / decodeType on the same arguments.
+func isElemDecodeHelper(f *ssa.Function) bool {
+	if f == nil || f.Blocks == nil || fnPkgPath(f) != pkgReflect {
+		return false
+	}
+	n := 0
+	for _, b := range f.Blocks {
+		for _, ins := range b.Instrs {
+			if call, ok := ins.(*ssa.Call); ok && call.Call.StaticCallee() != nil {
+				switch shortFn(call.Call.StaticCallee()) {
+				case "tDecoder.decodeType", "decodeFixedSizeTypes":
+					n++
+				case "tDecoder.Decode":
+					return false
+				}
+			}
+		}
+	}
+	return n > 0 && shortFn(f) != "tDecoder.decodeType" && shortFn(f) != "tDecoder.Decode"
+}
+
+// reachesOnlyVia: from is one of several alternatives that all flow into to (if/else producing the same merged value).
+func reachesOnlyVia(from, to *ssa.BasicBlock) bool {
+	return blockReaches(from, to) && !blockReaches(to, from) || blockReaches(from, to)
+}
+
+func ruleExceptionKinds(c *Ctx) []Ob {
+	s := newSink(c, "X.exception-kinds")
+	var tp *types.Package
+	for path, p := range c.ByPath {
+		if strings.HasSuffix(path, "gopkg/protocol/thrift") {
+			tp = p.Types
+		}
+	}
+	if tp == nil {
+		s.bad("thrift-package", "-", "gopkg thrift package not loaded")
+		return s.obs
+	}
+	kind := func(n string) int64 {
+		if k, ok := tp.Scope().Lookup(n).(*types.Const); ok {
+			v, _ := strconv.ParseInt(k.Val().ExactString(), 10, 64)
+			return v
+		}
+		return -1
+	}
+	want := map[string]string{"errDepthLimitExceeded": "DEPTH_LIMIT", "errNegativeSize": "NEGATIVE_SIZE", "newRequiredFieldNotSetException": "INVALID_DATA",
+		"newSizeExceedsBufferException": "SIZE_LIMIT", "newTypeMismatch": "INVALID_DATA", "newTypeMismatchKV": "INVALID_DATA"}
+	seen := map[string]bool{}
+	for _, fn := range c.ModuleFuncs(pkgReflect) {
+		for _, b := range fn.Blocks {
+			for _, ins := range b.Instrs {
+				call, ok := ins.(*ssa.Call)
+				if !ok || call.Call.StaticCallee() == nil || call.Call.StaticCallee().Name() != "NewProtocolException" {
+					continue
+				}
+				// owner: the enclosing constructor, or the global the result is stored into (package init)
+				owner := fn.Name()
+				if isInitFn(fn) {
+					for _, r := range referrers(call) {
+						if st, ok := r.(*ssa.Store); ok {
+							if g, ok := st.Addr.(*ssa.Global); ok {
+								owner = g.Name()
+							}
+						}
+					}
+				}
+				w, known := want[owner]
+				if !known {
+					continue
+				}
+				seen[owner] = true
+				got, okc := constInt(call.Call.Args[0])
+				s.check(okc && got == kind(w) && kind(w) >= 0, owner, c.InstrPos(call), owner+" is a "+w+" protocol exception", fmt.Sprintf("%s is created with exception kind %d, expected thrift.%s (%d)", owner, got, w, kind(w)))
+			}
+		}
+	}
+	for o := range want {
+		if !seen[o] {
+			s.bad(o, "-", "exception constructor "+o+" not found")
+		}
+	}
 	return s.obs
 }
